@@ -5,13 +5,13 @@ use std::sync::Arc;
 
 use serde_json::Value;
 
-use crate::driver::RespMsg;
+use crate::driver::{ReqCfg, RespMsg};
 use crate::engine::{Limits, Report, Tier};
 use crate::exch::{ExchCfg, Gate, Menu, ServerMsg};
 use crate::exch_run::{replay_exchange, run_exchanges};
 use crate::gen::*;
 
-pub const RULE: &str = "requests {POST, PUT, PATCH, GET with send-body-despite-method} x {HTTP/1.0, 1.1} x {Content-Length: 3, chunked}, all with Expect: 100-continue; server: bare interim 100 with reason {Continue, empty, none, 200-byte phrase} in HTTP/1.0 and 1.1 followed by the final response after the body, or a refusal = final head with status {101,200,204,302,403,417,500} bare / with 1 / with 2 fields arriving instead of the 100, or a silent server; per exchange the COMPLETE graph with 1-byte arrivals, try_read_100 at every window (while can_keep_await_100), give-up at EVERY prefix, then both later paths (body then response incl. late 100, or response directly) run to Cleanup. distinct = distinct (exchange, final observation) pairs (several per exchange are legitimate here: give-up before a refusal sends the body)";
+pub const RULE: &str = "requests {POST, PUT, PATCH, GET with send-body-despite-method} x {HTTP/1.0, 1.1} x {Content-Length: 3, chunked}, all with Expect: 100-continue, plus flows obtained by following a 302 / 307 redirect that inherit the Expect header and are converted with send-body-despite-method; server: bare interim 100 with reason {Continue, empty, none, 200-byte phrase} in HTTP/1.0 and 1.1 followed by the final response after the body, or a refusal = final head with status {101,200,204,302,403,417,500} bare / with 1 / with 2 fields arriving instead of the 100, or a silent server; per exchange the COMPLETE graph with 1-byte arrivals, try_read_100 at every window (while can_keep_await_100), give-up at EVERY prefix, then both later paths (body then response incl. late 100, or response directly) run to Cleanup. distinct = distinct (exchange, final observation) pairs (several per exchange are legitimate here: give-up before a refusal sends the body)";
 
 fn long_phrase() -> String {
     let mut s = String::new();
@@ -36,6 +36,28 @@ pub fn build(tier: Tier) -> Vec<Arc<ExchCfg>> {
     for v in ["1.0", "1.1"] {
         reqs.push(req("GET", v, ReqFraming::Length(3), 3, true, false, true));
         reqs.push(req("GET", v, ReqFraming::ExplicitChunked, 3, true, false, true));
+    }
+    // the same handshake on a flow obtained by following a redirect: the Expect header is inherited,
+    // the caller converts the new (GET) flow to send a body
+    for status in [302u16, 307] {
+        let model = ReqCfg::new("GET", "1.1", "http://a.test/next").orig("expect", "100-continue").orig("x-trace", "t1").despite(true);
+        let prep: crate::exch::PrepFn = Arc::new(move || {
+            use crate::chain::{follow, Followed, Loc};
+            let orig = if status == 302 {
+                ReqCfg::new("POST", "1.1", "http://a.test/p").orig("content-length", "3").orig("expect", "100-continue").orig("x-trace", "t1")
+            } else {
+                ReqCfg::new("GET", "1.1", "http://a.test/p").orig("expect", "100-continue").orig("x-trace", "t1").despite(true)
+            };
+            let pf = orig.build_prepare()?;
+            match follow(&pf, b"abc", status, &Loc::one("/next"), false)? {
+                Followed::New(mut f) => {
+                    f.send_body_despite_method();
+                    Ok(f)
+                }
+                _ => Err("redirect not followed".into()),
+            }
+        });
+        reqs.push(ReqSpec { cfg: model, body: crate::engine::pattern(3), label: format!("redirected ({}) GET with inherited Expect + despite", status), prep: Some(prep) });
     }
     let lp = long_phrase();
     let mut out = Vec::new();
@@ -75,7 +97,7 @@ pub fn build(tier: Tier) -> Vec<Arc<ExchCfg>> {
             let mut menu = Menu::default_large();
             menu.arrive = vec![1];
             menu.allow_giveup = true;
-            let mut cfg = ExchCfg::new("C11", r.cfg.clone(), r.body.clone(), srv, trailing, menu).expect("cfg");
+            let mut cfg = ExchCfg::new_with_prep("C11", r.cfg.clone(), r.body.clone(), srv, trailing, menu, r.prep.clone()).expect("cfg");
             cfg.scope = |k| {
                 k.starts_with("try-read-100:") || k.starts_with("proceed:") || k.starts_with("try-response:") || k.starts_with("verdict:") || k == "final:request-body-incomplete" || k == "no-path-to-completion" || k == "no-final-state" || k.starts_with("canonical:") || k.starts_with("graph:")
             };
@@ -87,7 +109,6 @@ pub fn build(tier: Tier) -> Vec<Arc<ExchCfg>> {
 
 pub fn run(tier: Tier) -> Report {
     let cfgs = build(tier);
-    crate::engine::WD_LIMIT_S.store(120, std::sync::atomic::Ordering::Relaxed);
     let lim = Limits { max_states: 2_000_000, keep_final_traces: 3, keep_state_traces: 3, check_coreach: true, probe_every: 8, ..Default::default() };
     let mut rep = run_exchanges(cfgs, &lim, false, |c| c.to_json());
     let fs = rep.extra.get("final_states").and_then(|v| v.as_u64()).unwrap_or(0);
